@@ -701,6 +701,54 @@ pub fn plans_for(prop: &str, thorough: bool) -> Vec<Plan> {
                 u_cap: 400,
             });
             plans.push(Plan {
+                name: "F-NEST (catalogue statements inside every enclosing construct) + F-ARGS + F-TABLE + F-CALL x call_parentheses x collapse x all widths",
+                cases: {
+                    let mut v = gen::f_nest(if thorough { 1 } else { 9 });
+                    v.extend(gen::f_args(if thorough { 3 } else { 2 }, if thorough { 1 } else { 3 }));
+                    v.extend(gen::f_table(if thorough { 3 } else { 2 }, if thorough { 1 } else { 5 }));
+                    if thorough {
+                        v.extend(gen::f_call(false));
+                    } else {
+                        v.extend(gen::f_call(false).into_iter().enumerate().filter(|(i, _)| i % 4 == 0).map(|(_, c)| c));
+                    }
+                    v
+                },
+                cfgs: cross(false, if thorough { call_collapse } else { |b| vec![b, Cfg { cp: 3, cs: 3, ..b }] }),
+                widths: Widths::All,
+                ranges: Ranges::None,
+                oracles: o,
+                u_cap: 400,
+            });
+            plans.push(Plan {
+                name: "F-WS renderings + F-IGN + F-REQ (sort on)",
+                cases: {
+                    let mut v: Vec<Case> = gen::f_ws_files();
+                    for (i, b) in stmt.iter().enumerate() {
+                        if thorough || i % 3 == 0 {
+                            v.extend(gen::ws_variants(b, thorough));
+                        }
+                    }
+                    v.extend(gen::f_ign(false).into_iter().enumerate().filter(|(i, _)| thorough || i % 5 == 0).map(|(_, c)| c));
+                    v
+                },
+                cfgs: cross(false, |b| vec![b, Cfg { le: 1, it: 1, iw: 2, ..b }]),
+                widths: Widths::Classes,
+                ranges: Ranges::None,
+                oracles: o,
+                u_cap: 400,
+            });
+            if prop != "C02" {
+                plans.push(Plan {
+                    name: "F-REQ with sort_requires on",
+                    cases: gen::f_req(if thorough { 4 } else { 3 }, false).into_iter().enumerate().filter(|(i, _)| thorough || i % 4 == 0).map(|(_, c)| c).collect(),
+                    cfgs: cross(false, |b| vec![Cfg { sort: true, ..b }]),
+                    widths: Widths::Classes,
+                    ranges: Ranges::None,
+                    oracles: o,
+                    u_cap: 400,
+                });
+            }
+            plans.push(Plan {
                 name: "F-STR + F-NUM x quote_style x line_endings",
                 cases: {
                     let mut v = if thorough { gen::f_str(4, 5, 2) } else { gen::f_str(3, 4, 1) };
